@@ -5,7 +5,20 @@ V = os.path.dirname(os.path.dirname(os.path.abspath(__file__)))
 ids = [json.loads(l)['id'] for l in open(os.path.join(V, 'properties.jsonl'))]
 baseline = json.load(open('/root/.vp/BASELINE.json'))['cmd'] if os.path.exists('/root/.vp/BASELINE.json') else "cd /repo && go test ./..."
 SIM = "deterministic simulation with fault injection (seeded schedules over real olric+memberlist+redcon+go-redis in one synctest bubble)"
+NOTE = "Trusts the simulator seams (simnet, simsync, fake clock) and that the mechanical source rewrite preserves olric's semantics; 1 P per run; sampling."
 claimed = {
+ "C04": dict(level="exploration", design="DESIGN.md §8 C04",
+   text="Seeded search: sequential chains of mutating operations with every option combination through random entry points, concurrent chains on neighbouring keys, background eviction/compaction running; after every acknowledged op every stored copy is read with DM.GETENTRY [RC] on every member and compared (value, ttl, timestamp, presence).",
+   note=NOTE, technique=SIM + "; copy-equality invariant after every acknowledged op"),
+ "C07": dict(level="exploration", design="DESIGN.md §8 C07",
+   text="Seeded search over interleavings of 2-8 concurrent Incr/Decr/IncrByFloat/GetPut callers on all entry points with yields between read and write; returned values checked with porcupine against a counter/register model, plus conservation (final = initial + sum of acknowledged deltas) and GetPut chain uniqueness.",
+   note=NOTE, technique=SIM + "; porcupine + conservation oracle"),
+ "C09": dict(level="exploration", design="DESIGN.md §8 C09",
+   text="Seeded search: TTLs established in every form, then reads and conditional writes placed -2..+2 ms around the deadline (and far after) on the simulated clock through every entry point; results compared with millisecond exactness against a sequential expiry model (set-of-possible-states, uncertainty only inside the deadline millisecond).",
+   note=NOTE, technique=SIM + "; sequential expiry reference model on the fake clock"),
+ "C15": dict(level="exploration", design="DESIGN.md §8 C15",
+   text="Differential: one abstract operation sequence is executed on path-private keys through embedded-owner, embedded-non-owner, cluster client, raw RESP to owner and raw RESP to non-owner; every path must equal the sequential model (value, ttl, presence, delete count), hence every other path.",
+   note=NOTE, technique=SIM + "; differential against a sequential reference model"),
  "C01": dict(level="exploration", design="DESIGN.md §8 C01",
    text="Seeded search over schedules: concurrent clients on all entry points against a stable simulated cluster; every per-key history is checked for linearizability with porcupine against a register-with-NX/XX/Delete model. Sampling, not proof.",
    note="Trusts the simulator seams (simnet, simsync, fake clock), porcupine, and that the mechanical source rewrite preserves olric's semantics; 1 P per run.",
